@@ -971,6 +971,21 @@ class Run:
             if sig is not None:
                 out.append((s, None, sig))
                 continue
+            if isinstance(v, ast.Name):
+                # a local that captured a pure boolean expression
+                # (`catch_all = event not in self.reserved_events`) and is
+                # tested before anything could change what it talks about:
+                # the test is the expression
+                d = self.symdefs.get(v.id)
+                if d and d['kind'] == 'assign' and isinstance(
+                        d['expr'], (ast.Compare, ast.BoolOp, ast.UnaryOp)) \
+                        and not any(isinstance(n, (ast.Call, ast.Await,
+                                                   ast.NamedExpr))
+                                    for n in ast.walk(d['expr'])) and \
+                        not any(e.kind in ('store', 'del', 'call', 'await')
+                                for e in s.events[d['at']:]):
+                    out += self.branch_evaluated(d['expr'], s, test)
+                    continue
             if isinstance(v, ast.BoolOp) or (
                     isinstance(v, ast.UnaryOp) and
                     isinstance(v.op, ast.Not) and
